@@ -22,13 +22,14 @@ Qed.
 
 Record guarded (gs:guardset) : Prop := {
   G_antlr : g_antlr gs = true; G_specs : g_walk_specs gs = true; G_imports : g_walk_imports gs = true;
+  G_post : g_post gs = true;
   G_perr : err_parse_propagated gs = true; G_cerr : err_collect_propagated gs = true; G_code : exit_uses_code gs = true;
   G_pc : parse_error_code gs <> 0; G_ic : import_error_code gs <> 0; G_dc : default_exit_code gs <> 0 }.
 
 Lemma all_guarded_spec gs : all_guarded gs = true -> guarded gs.
 Proof.
   unfold all_guarded. rewrite !andb_true_iff, !negb_true_iff, !Z.eqb_neq.
-  intros [[[[[[[[? ?] ?] ?] ?] ?] ?] ?] ?]. constructor; assumption.
+  intros [[[[[[[[[? ?] ?] ?] ?] ?] ?] ?] ?] ?]. constructor; assumption.
 Qed.
 
 Lemma collect_file_no_panic gs f : guarded gs -> b_read f <> RPanic -> collect_file gs f <> RPanic.
@@ -58,14 +59,20 @@ Qed.
 
 (* never a crash: for every closure, every behaviour of the stages that run under a recover, every
    error behaviour of the others *)
+Lemma post_stage_no_panic gs post : guarded gs -> post_stage gs post <> RPanic.
+Proof.
+  intros G H. unfold post_stage in H. apply propagate_panic in H. rewrite (G_post gs G) in H.
+  exact (guard_true post H).
+Qed.
+
 Theorem compile_never_crashes gs fs post :
-  all_guarded gs = true -> Forall unguarded_stages_dont_panic fs -> post <> RPanic ->
+  all_guarded gs = true -> Forall unguarded_stages_dont_panic fs ->
   compile gs fs post <> OCrash.
 Proof.
-  intros Hg Hall Hpost. apply all_guarded_spec in Hg. unfold compile.
-  assert (H : andthen (collect_all gs fs) (andthen (seq_stage (parse_file gs) fs) post) <> RPanic).
+  intros Hg Hall. apply all_guarded_spec in Hg. unfold compile.
+  assert (H : andthen (collect_all gs fs) (andthen (seq_stage (parse_file gs) fs) (post_stage gs post)) <> RPanic).
   { intros H. apply andthen_panic in H. destruct H as [H|H]; [exact (collect_all_no_panic gs fs Hg Hall H)|].
-    apply andthen_panic in H. destruct H as [H|H]; [|exact (Hpost H)].
+    apply andthen_panic in H. destruct H as [H|H]; [|exact (post_stage_no_panic gs post Hg H)].
     apply seq_stage_panic in H. destruct H as (f & Hin & Hf). rewrite Forall_forall in Hall.
     destruct (Hall f Hin) as [_ Hff]. exact (parse_file_no_panic gs f Hg Hff Hf). }
   destruct (andthen _ _); cbn; congruence.
@@ -116,10 +123,12 @@ Theorem compile_model_iff_all_ok gs fs post :
   (compile gs fs post = OModel <-> Forall file_all_ok fs /\ post = ROk).
 Proof.
   intros Hg. apply all_guarded_spec in Hg. unfold compile.
-  assert (E : to_obs gs (andthen (collect_all gs fs) (andthen (seq_stage (parse_file gs) fs) post)) = OModel
-              <-> andthen (collect_all gs fs) (andthen (seq_stage (parse_file gs) fs) post) = ROk).
+  assert (E : to_obs gs (andthen (collect_all gs fs) (andthen (seq_stage (parse_file gs) fs) (post_stage gs post))) = OModel
+              <-> andthen (collect_all gs fs) (andthen (seq_stage (parse_file gs) fs) (post_stage gs post)) = ROk).
   { destruct (andthen _ _); cbn; split; congruence. }
-  rewrite E, !andthen_ok, seq_stage_ok.
+  assert (P : post_stage gs post = ROk <-> post = ROk).
+  { unfold post_stage. rewrite (G_perr gs Hg), propagate_ok, guard_ok. tauto. }
+  rewrite E, !andthen_ok, seq_stage_ok, P.
   assert (C : collect_all gs fs = ROk <-> Forall (fun f => collect_file gs f = ROk) fs).
   { destruct fs as [|root rest]; cbn [collect_all]; [split; [constructor|reflexivity]|].
     rewrite andthen_ok, (G_cerr gs Hg), propagate_ok, rewrap_ok, seq_stage_ok.
@@ -137,7 +146,7 @@ Qed.
 Example unguarded_walk_crashes :
   exists gs f, g_walk_specs gs = false /\ unguarded_stages_dont_panic f /\ compile gs [f] ROk = OCrash.
 Proof.
-  exists {| g_antlr := true; g_walk_specs := false; g_walk_imports := true; err_parse_propagated := true;
+  exists {| g_antlr := true; g_walk_specs := false; g_walk_imports := true; g_post := true; err_parse_propagated := true;
             err_collect_propagated := true; exit_uses_code := true; parse_error_code := 2; import_error_code := 1;
             default_exit_code := 1 |},
          {| b_read := ROk; b_antlr_imp := ROk; b_walk_imp := ROk; b_foreign := ROk; b_antlr := ROk; b_walk := RPanic |}.
@@ -147,7 +156,7 @@ Qed.
 Example swallowed_error_yields_model :
   exists gs f, err_parse_propagated gs = false /\ b_antlr f = RErr EParse /\ compile gs [f] ROk = OModel.
 Proof.
-  exists {| g_antlr := true; g_walk_specs := true; g_walk_imports := true; err_parse_propagated := false;
+  exists {| g_antlr := true; g_walk_specs := true; g_walk_imports := true; g_post := true; err_parse_propagated := false;
             err_collect_propagated := true; exit_uses_code := true; parse_error_code := 2; import_error_code := 1;
             default_exit_code := 1 |}, (behave_of FBadParse).
   repeat split.
@@ -173,10 +182,10 @@ Theorem field_compile_class gs d :
   all_guarded gs = true ->
   compile gs [field_behaviour d] ROk = if field_panics d then OError (parse_error_code gs) else OModel.
 Proof.
-  intros Hg. apply all_guarded_spec in Hg. destruct Hg as [Ga Gs Gi Gp Gc Gk _ _ _].
-  unfold compile, field_behaviour, collect_all, collect_file, parse_file, to_obs.
+  intros Hg. apply all_guarded_spec in Hg. destruct Hg as [Ga Gs Gi Go Gp Gc Gk _ _ _].
+  unfold compile, field_behaviour, collect_all, collect_file, parse_file, post_stage, to_obs.
   cbn [seq_stage b_read b_antlr_imp b_walk_imp b_foreign b_antlr b_walk].
-  rewrite Ga, Gs, Gi, Gp, Gc.
+  rewrite Ga, Gs, Gi, Go, Gp, Gc.
   destruct (field_panics d) eqn:Hp.
   - apply field_panics_iff in Hp. rewrite Hp. cbn [propagate guard andthen rewrap_import]. unfold code_of. rewrite Gk. reflexivity.
   - destruct (denote_field d) eqn:Hd; [reflexivity|]. apply field_panics_iff in Hd. congruence.
@@ -187,3 +196,13 @@ Example field_ok_example : field_panics {| fnat := NString; fwrap := WSeq; fspec
 Proof. reflexivity. Qed.
 Example field_panic_example : field_panics {| fnat := NFloat; fwrap := WNone; fspec := SSize 5 None; fopt := false |} = true.
 Proof. reflexivity. Qed.
+
+(* the recover around lint + post-processing is necessary too: without it an assertion in postProcess kills the process *)
+Example unguarded_post_crashes :
+  exists gs f, g_post gs = false /\ unguarded_stages_dont_panic f /\ compile gs [f] RPanic = OCrash.
+Proof.
+  exists {| g_antlr := true; g_walk_specs := true; g_walk_imports := true; g_post := false; err_parse_propagated := true;
+            err_collect_propagated := true; exit_uses_code := true; parse_error_code := 2; import_error_code := 1;
+            default_exit_code := 1 |}, (behave_of FGood).
+  split; [reflexivity|]. split; [split; discriminate|reflexivity].
+Qed.
